@@ -318,6 +318,7 @@ def mc_coverage(ctx, st, tr, verdicts, events, extra=None):
            "calls_failed": sum(v["cnt"]["failed"] for v in verdicts),
            "calls_with_injected_fault": sum(v["cnt"]["faulted"] for v in verdicts),
            "model_divergences": sum(len(v["div"]) for v in verdicts),
+           "calls_entered_with_nonzero_errno": sum(1 for e in events if e.get("ein")),
            "tlc_runs": ctx.tlc_runs}
     cov.update(extra or {})
     return cov
